@@ -10,6 +10,7 @@ import (
 	"bytes"
 	"encoding/binary"
 	"io"
+	"os"
 	"path"
 	"strings"
 )
@@ -60,6 +61,17 @@ func (h *NFSProcedureHandler) handleMountCall(call *RPCCall, body io.Reader, rep
 		}
 
 		// Create mount point with timeout
+		// Refuse paths that pass through a symbolic link: the handle would name the object
+		// by a second path, which path-keyed handles, file ids and caches cannot keep coherent.
+		for prefix := path.Dir(mountPath); prefix != "/" && prefix != "."; prefix = path.Dir(prefix) {
+			if info, statErr := h.server.handler.fs.Lstat(prefix); statErr == nil && info.Mode()&os.ModeSymlink != 0 {
+				var buf bytes.Buffer
+				xdrEncodeUint32(&buf, 13) // MNT3ERR_ACCES
+				reply.Data = buf.Bytes()
+				return reply, nil
+			}
+		}
+
 		node, err := h.server.handler.Lookup(mountPath)
 		if err != nil {
 			// MNT3 response: fhs_status (MNT3ERR_NOENT = 2)
